@@ -121,7 +121,11 @@ class Lexer:
         self.re_pattern = r"/(?P<G_RE>.+?)/(?P<G_RE_FLAGS>[aims]*)"
 
         # func(
-        self.function_pattern = r"(?P<G_FUNC>[a-z][a-z_0-9]+)\(\s*"
+        # An operator spelled as a word and followed by a parenthesis, as in
+        # `not(@.a)`, is not a function call.
+        self.function_pattern = (
+            r"(?!(?:and|or|not|in|contains)\()(?P<G_FUNC>[a-z][a-z_0-9]+)\(\s*"
+        )
 
         self.rules = self.compile_rules()
 
